@@ -83,10 +83,101 @@ type lkCaller struct {
 
 const harnessCancelMs = 70*60*1000 + 1777 // never coincides with a multiple of the 5-minute limit
 
+// crowdSvc answers every lookup after a short real-time pause, unless the request's context
+// has ended.
+type crowdSvc struct{ reqs atomic.Int64 }
+
+func (s *crowdSvc) Get(ctx context.Context, name string) (*api.SecretValue, error) {
+	s.reqs.Add(1)
+	if ctx.Err() != nil {
+		return nil, ctx.Err()
+	}
+	select {
+	case <-time.After(300 * time.Microsecond):
+	case <-ctx.Done():
+		return nil, ctx.Err()
+	}
+	return &api.SecretValue{Version: 1, Value: []byte("looked-up")}, nil
+}
+
+func (s *crowdSvc) GetIfChanged(ctx context.Context, name string, old api.SecretVersion) (*api.SecretValue, error) {
+	return nil, api.ErrValueNotChanged
+}
+
+// lookupCrowd: one patient caller (a context that never ends) looks up an unknown name on a
+// healthy service while a crowd of callers whose contexts have already ended keeps asking for
+// the same name (real time, real parallelism).  However often the patient caller finds itself
+// waiting on a request that one of them started - and that therefore ends at once - it must get
+// its handle.
+//
+//	lookupcrowd trials= bad= first=<result of the first bad trial>
+func lookupCrowd(trials int) {
+	bad, first := 0, "-"
+	for k := 0; k < trials; k++ {
+		svc := &crowdSvc{}
+		st, err := setec.NewStore(context.Background(), setec.StoreConfig{Client: svc, AllowLookup: true, PollInterval: -1, Logf: func(string, ...any) {}})
+		if err != nil {
+			continue
+		}
+		var stop atomic.Bool
+		var wg sync.WaitGroup
+		dead, cancel := context.WithCancel(context.Background())
+		cancel()
+		startc := make(chan struct{})
+		for c := 0; c < 10; c++ {
+			wg.Add(1)
+			go func() {
+				defer wg.Done()
+				<-startc
+				for j := 0; j < 3000 && !stop.Load(); j++ {
+					st.LookupSecret(dead, "x")
+				}
+			}()
+		}
+		res := "handle"
+		done := make(chan struct{})
+		go func() {
+			defer close(done)
+			defer func() {
+				if p := recover(); p != nil {
+					res = "panic"
+				}
+			}()
+			<-startc
+			time.Sleep(50 * time.Microsecond)
+			cx, cf := context.WithTimeout(context.Background(), 20*time.Second) // far beyond anything needed
+			defer cf()
+			hd, err := st.LookupSecret(cx, "x")
+			switch {
+			case err == nil && hd != nil && string(hd.Get()) == "looked-up":
+			case err == nil:
+				res = "badhandle"
+			default:
+				res = "error:" + err.Error()
+			}
+		}()
+		close(startc)
+		<-done
+		stop.Store(true)
+		wg.Wait()
+		st.Close()
+		if res != "handle" {
+			bad++
+			if first == "-" {
+				first = hx(res)
+			}
+		}
+	}
+	emit("lookupcrowd\ttrials=%d\tbad=%d\tfirst=%s", trials, bad, first)
+}
+
 // traceLookup: concurrent LookupSecret calls for one unknown name under virtual time.
 //
 //	lookupc callers=<start/deadline/cancel;...> script=<a10,f0,h,...> rets=<ms/res;...> reqs=<ms,...> maxconc= installed=
 func traceLookup(t *testing.T, o opts) {
+	if o.only < 0 {
+		lookupCrowd(o.n / 2)
+	}
 	for h := 0; h < o.n; h++ {
 		if o.only >= 0 && h != o.only {
 			continue
